@@ -109,11 +109,12 @@ impl Check for Linear {
             let py: Vec<f64> = perm.iter().map(|&i| ys[i]).collect();
             o.executions += 1;
             let ctx = || format!("family {} n {} slope {} icpt {} noise {} order {:?}", p.kind, p.n, p.slope, p.icpt, p.noise, if p.n <= 8 { perm.clone() } else { perm[..3].to_vec() });
-            match vcore::guard(|| linear_fit(&px, &py)) {
+            // (slope and intercept are read inside the guard: a result whose coefficients cannot be read back through the
+            // public accessor is a violation of the library, not a failure of the harness)
+            match vcore::guard(|| linear_fit(&px, &py).map(|q| (q.get_coefficient(1), q.get_coefficient(0), q))) {
                 Err(m) => o.viol("optimize::linear_fit", "no-panic", format!("{}: {}", ctx(), m)),
                 Ok(Err(e)) => o.viol("optimize::linear_fit", "ok-on-valid-data", format!("{}: Err({})", ctx(), e)),
-                Ok(Ok(poly)) => {
-                    let (a, b) = (poly.get_coefficient(1), poly.get_coefficient(0));
+                Ok(Ok((a, b, poly))) => {
                     if poly.order() > 1 {
                         o.viol("optimize::linear_fit", "degree-one", format!("{}: order {}", ctx(), poly.order()));
                     }
@@ -231,7 +232,7 @@ impl Check for SmallLinear {
             let slope = (n as i64 * sxy - sx * sy) as f64 / den as f64;
             let icpt = (sy as f64 - slope * sx as f64) / n as f64;
             let yf: Vec<f64> = ys.iter().map(|y| *y as f64).collect();
-            match vcore::guard(|| linear_fit(&xs, &yf)) {
+            match vcore::guard(|| linear_fit(&xs, &yf).map(|q| (q.get_coefficient(1), q.get_coefficient(0), q))) {
                 Err(m) => {
                     o.viol("optimize::linear_fit", "no-panic", format!("xs {:?} ys {:?}: {}", p.xs, ys, m));
                     break 'outer;
@@ -240,8 +241,7 @@ impl Check for SmallLinear {
                     o.viol("optimize::linear_fit", "ok-on-valid-data", format!("xs {:?} ys {:?}: Err({})", p.xs, ys, e));
                     break 'outer;
                 }
-                Ok(Ok(poly)) => {
-                    let (a, b) = (poly.get_coefficient(1), poly.get_coefficient(0));
+                Ok(Ok((a, b, poly))) => {
                     let t = 64.0 * EPS * (1.0 + slope.abs() + icpt.abs()) * 8.0;
                     if !((a - slope).abs() <= t && (b - icpt).abs() <= t && poly.order() <= 1) {
                         o.viol("optimize::linear_fit", "normal-equations", format!("xs {:?} ys {:?}: got {} x + {}, the least-squares line is {} x + {}", p.xs, ys, a, b, slope, icpt));
